@@ -40,7 +40,11 @@ def parseBehWord : String → Option Beh
   -- the handler hijacks its request and re-uses / releases it: what it does with the request object afterwards must not
   -- matter, the reply belongs to the request as it arrived
   | "hjm" => some .pb | "hjr" => some .none
-  | _ => none
+  | w =>
+    -- `ov-<id>-<len>`: the reply carries option number <id> with a value of <len> bytes
+    match w.splitOn "-" with
+    | ["ov", i, l] => do some (.ov (← i.toNat?) (← l.toNat?))
+    | _ => none
 
 /-- `<beh>.<code>`: the request's code (GET, FETCH, PATCH, an unassigned one …) does not matter to de-duplication. -/
 def parseBeh (s : String) : Option Beh :=
